@@ -154,14 +154,18 @@ pub fn profile(id: &str) -> Option<Profile> {
         "C20" => (Kind::Cli, 600, 20_000),
         _ => return None,
     };
-    Some(Profile {
+    let mut p = Profile {
         id: Box::leak(id.to_string().into_boxed_str()),
         kind,
         gen: g,
         oracles: o,
         quick,
         thorough,
-    })
+    };
+    if p.kind == Kind::Crash {
+        crate::crashrun::crash_gen(&mut p);
+    }
+    Some(p)
 }
 
 thread_local! {
@@ -304,11 +308,7 @@ pub fn run_engine(p: &Profile, seed: u64, run: u64, ov: &Override, want_case: bo
             w.sim.core.trace_on.set(true);
         }
         w.run_steps_seq(&steps);
-        if std::env::var("QSIM_TRACE").is_ok() {
-            for l in w.sim.core.trace.borrow().iter() {
-                eprintln!("{l}");
-            }
-        }
+        debug_dump(&w);
         w
     }));
     match res {
@@ -337,7 +337,11 @@ pub fn run_engine(p: &Profile, seed: u64, run: u64, ov: &Override, want_case: bo
             };
             out.viols.push(Viol {
                 props: vec![p.id],
-                sig: format!("{}{taint}", panic_sig(&info)),
+                sig: format!(
+                    "{}{taint}{}",
+                    panic_sig(&info),
+                    if cfg_short_l1(&cfg) { "/short-l1-table" } else { "" }
+                ),
                 detail: format!("panic: {info}"),
                 step: 0,
                 nonfatal: false,
@@ -352,4 +356,60 @@ pub fn run_engine(p: &Profile, seed: u64, run: u64, ov: &Override, want_case: bo
         out.steps_list = Some(steps);
     }
     out
+}
+
+pub fn debug_dump(w: &World) {
+    if std::env::var("QSIM_TRACE").is_ok() {
+        for l in w.sim.core.trace.borrow().iter() {
+            eprintln!("{l}");
+        }
+    }
+    if std::env::var("QSIM_FINAL").is_ok() {
+        let img = w.sim.file_content(w.files[0]);
+        let v = crate::qspec::check_image(&img, true);
+        eprintln!("final file: len {:#x} fatal {:?}", img.len(), v.fatal);
+        for s in v.structural.iter().take(10) {
+            eprintln!("  structural: {s}");
+        }
+        for s in v.undercount.iter().take(10) {
+            eprintln!("  undercount: {s}");
+        }
+        for s in v.leak.iter().take(10) {
+            eprintln!("  leak: {s}");
+        }
+        if let Some((limg, snap)) = w.logical_image() {
+            let v = crate::qspec::check_image(&limg, true);
+            eprintln!("logical in-RAM image: fatal {:?} hdr l1 {:#x}/{} rt {:#x}/{} new {:?}", v.fatal, snap.hdr_l1_offset, snap.hdr_l1_entries, snap.hdr_reftable_offset, snap.hdr_reftable_clusters, snap.new_clusters);
+            for s in v.structural.iter().take(10) {
+                eprintln!("  structural: {s}");
+            }
+            for s in v.undercount.iter().take(10) {
+                eprintln!("  undercount: {s}");
+            }
+            for s in v.leak.iter().take(10) {
+                eprintln!("  leak: {s}");
+            }
+            eprintln!("  l1[0..4] {:x?}", &snap.l1[..4.min(snap.l1.len())]);
+        }
+    }
+}
+
+/// does the top layer's header list fewer L1 entries than its size needs
+pub fn cfg_short_l1(cfg: &Cfg) -> bool {
+    let l = &cfg.layers[0];
+    if !l.l1_short || l.formatted {
+        return false;
+    }
+    let cs = 1u64 << l.cluster_bits;
+    let l2n = cs / 8;
+    let needed = l.vsize.div_ceil(cs).div_ceil(l2n);
+    let used = l
+        .guest
+        .iter()
+        .map(|(g, _)| g / l2n + 1)
+        .chain(l.empty_l2.iter().filter(|i| **i < needed).map(|i| i + 1))
+        .max()
+        .unwrap_or(0)
+        .max(1);
+    used < needed
 }
